@@ -120,6 +120,9 @@ FRAG = {
         'zidx': 'h{z-index:10}',
         'media': '@media (min-width:%Ppx){i{left:%Npx}}',
         'color': 'j{color:#ff0000}',
+        # regression (fixed d86a82e): leading-zero mantissa x exponent too large for Number, as dimension / percentage / number
+        'bigexp': 'k{width:04E338353804338273503554px;height:03E61251115074035972130px;top:05e12345678901234567890%;'
+                  'line-height:0.5e1234567890123456789012;left:%Ne9223372036854775808px;bottom:00.25E-1234567890123456789em}',
     },
     'svg': {
         'rect': '<rect x="%N" y="%Npx" width="%P" height="%Pem"/>',
@@ -130,6 +133,7 @@ FRAG = {
         'text': '<text>hello  world</text>',
         'vb': '<symbol id="s" viewBox="%N %N %P %P"><rect width="%P"/></symbol>',
         'poly': '<polygon points="%N,%N %N,%N %N,%N"/>',
+        'bigexp': '<rect x="04E338353804338273503554" y="03e61251115074035972130px" width="0.5e1234567890123456789012"/>',
     },
     'js': {
         'nullish': 'var alpha = beta == null ? gamma : beta;',
@@ -185,7 +189,8 @@ RICH = {
            'try { x() } catch (err) { }'],
 }
 
-HAND_NUMBERS = ['3.14159265358979', '0.000123456789', '123456.789', '99.95', '0.0999', '1234567890123', '1e21',
+HAND_NUMBERS = ['04E338353804338273503554', '03E61251115074035972130', '0.5e9223372036854775808', '00.25E-12345678901234567890',
+                '007e1234567890123456789', '3.14159265358979', '0.000123456789', '123456.789', '99.95', '0.0999', '1234567890123', '1e21',
                 '2.5e-7', '100000', '0.5', '12.3456e3', '0.00001', '9.9999', '14.9', '495.1', '1.00', '0.10',
                 '123456789012345678', '0.123456789012345678', '5e-324', '1.5', '10', '0', '0.0', '1000', '1e3',
                 '271828.1828', '4.4445', '0.95', '9.5', '19.99', '1234.5', '0.045', '7', '45000', '1.0e10']
